@@ -634,7 +634,17 @@ async def _serial_blocks(stream: bytes):
     gw = WaveShareNmea2000Gateway("none")
     out = []
     try:
-        gw._buffer = bytearray()
+        import serial_asyncio
+        from props.c20 import _Writer
+
+        async def fake_open(*a, **k):
+            return asyncio.StreamReader(), _Writer()
+        saved = serial_asyncio.open_serial_connection
+        serial_asyncio.open_serial_connection = fake_open
+        try:
+            await gw._connect_impl()         # the client prepares itself for a new connection
+        finally:
+            serial_asyncio.open_serial_connection = saved
         gw.reader = asyncio.StreamReader()
         gw.reader.feed_data(stream)
         gw.reader.feed_eof()
@@ -856,7 +866,18 @@ async def _client_split(fmt: str, pkts, cut=None):
         gw.decoder.decode_tcp = lambda p: got.append(bytes(p))
     elif fmt == "usb":
         gw = IO.WaveShareNmea2000Gateway("none")
-        gw._buffer = bytearray()
+        # opened through the client's own _connect_impl on a scripted port (whatever it sets up per connection is its business)
+        import serial_asyncio
+        from props.c20 import _Writer
+
+        async def fake_open(*a, **k):
+            return asyncio.StreamReader(), _Writer()
+        saved = serial_asyncio.open_serial_connection
+        serial_asyncio.open_serial_connection = fake_open
+        try:
+            await gw._connect_impl()
+        finally:
+            serial_asyncio.open_serial_connection = saved
         gw.decoder.decode_usb = lambda p: got.append(bytes(p))
     else:
         gw = IO.YachtDevicesNmea2000Gateway("none", 0)
